@@ -606,6 +606,10 @@ theorem RInvP.provideContext {P : Id → Prop} {r r' : Root} {ty : Nat} {v : Int
         have w := h.node cur n hn
         exact ⟨h.setNode hn rfl rfl rfl rfl ⟨w.run, w.cleanups, w.callback⟩, Grows.setNode _ hn fun x => x⟩
 
+theorem Root.get?_setNode_self {r : Root} {id : Id} {n : Node} (hn : r.get? id = some n) (n' : Node) :
+    (r.setNode id n').get? id = some n' := by
+  rw [Root.get?_setNode]; simp [Root.lt_size_of_get? hn]
+
 theorem EnvLt.snoc {k : Nat} {env : List Handle} (h : EnvLt k env) {id : Id} (hid : id < k) (kd : Kind) :
     EnvLt k (env ++ [⟨id, kd⟩]) := by
   intro hd hm
@@ -811,5 +815,191 @@ theorem pres_updates {f : Nat} (ih : PresAll f) (P : Id → Prop) (r : Root) (s 
     subst hx
     exact hI.same rfl rfl
   · exact ih.nodeUpdates P r [s] r' hI hx
+
+/-! ### 6. `disposeChildren`, `createSelector`, `runNodeUpdate` -/
+
+theorem pres_dchildren {f : Nat} (ih : PresAll f) (P : Id → Prop) (r : Root) (id : Id) (r' : Root)
+    (hI : RInvP P r) (hx : disposeChildren (f + 1) r id = .ok r') : RootPost P r r' := by
+  simp only [disposeChildren] at hx
+  split at hx
+  · simp only [Except.ok.injEq] at hx
+    subst hx; exact ⟨hI, Grows.refl _⟩
+  · rename_i n hn
+    split at hx
+    · cases hx
+    · rename_i r2 h2
+      split at hx
+      · cases hx
+      · rename_i r3 h3
+        simp only [Except.ok.injEq] at hx
+        subst hx
+        -- detach the children
+        obtain ⟨ia, ga⟩ := hI.detach hn
+        obtain ⟨s1, _, _⟩ := SameFrame.setNode r id { n with cleanups := [], children := [] }
+        obtain ⟨ib, gb⟩ := ia.same
+          (r' := { (r.setNode id { n with cleanups := [], children := [] }) with tracker := none }) rfl rfl
+        -- the cleanups
+        obtain ⟨i2, g2⟩ := ih.cleanups _ _ n.cleanups r2 ib
+          (fun cl hc => by
+            have := (hI.node id n hn).cleanups cl hc
+            exact this.mono (by show r.nodes.size ≤ (r.setNode id _).nodes.size; rw [s1]; exact Nat.le_refl _)) h2
+        obtain ⟨ic, gc⟩ := i2.same
+          (r' := { r2 with tracker := (r.setNode id { n with cleanups := [], children := [] }).tracker }) rfl rfl
+        -- the children
+        obtain ⟨⟨i3, g3⟩, d3⟩ := ih.dlist _ _ n.children r3 ic h3
+        have gall : Grows r r3 := (((ga.trans gb).trans g2).trans gc).trans g3
+        have i3' : RInvP P r3 := by
+          refine i3.weaken ?_
+          intro j ha hP
+          rcases hP with hP | hm
+          · exact hP
+          · have hlt : j < r.nodes.size := hI.cbound id n hn j hm
+            have : r3.get? j = none := d3 j hm (Nat.lt_of_lt_of_le hlt (((ga.trans gb).trans g2).trans gc).size)
+            simp [Root.alive, this] at ha
+        -- clear the context
+        cases h3id : r3.get? id with
+        | none =>
+          have : r3.modify id (fun n => { n with context := [] }) = r3 := by simp [Root.modify, h3id]
+          rw [this]; exact ⟨i3', gall⟩
+        | some n3 =>
+          have : r3.modify id (fun n => { n with context := [] }) = r3.setNode id { n3 with context := [] } := by
+            simp [Root.modify, h3id]
+          rw [this]
+          have w := i3'.node id n3 h3id
+          exact ⟨i3'.setNode h3id rfl rfl rfl rfl ⟨w.run, w.cleanups, w.callback⟩,
+            gall.trans (Grows.setNode _ h3id fun x => x)⟩
+
+theorem pres_selector {f : Nat} (ih : PresAll f) (P : Id → Prop) (r : Root) (eq : EqKind) (cl : Closure)
+    (r' : Root) (id : Id) (hI : RInvP P r) (hE : EnvLt r.nodes.size cl.env)
+    (hx : createSelector (f + 1) r eq cl = .ok (r', id)) : RootPost P r r' ∧ id < r'.nodes.size := by
+  simp only [createSelector] at hx
+  split at hx
+  · cases hx
+  · rename_i r1 id1 h1
+    obtain ⟨i1, g1, hid, hsz1, hcur1, htr1, n1, hn1, hv1, hd1⟩ := hI.createNode h1
+    have hid1 : id1 < r1.nodes.size := by rw [hsz1, hid]; exact Nat.lt_succ_self _
+    split at hx
+    · cases hx
+    · rename_i r2 v obs h2
+      have ia : RInvP P { r1 with current := some id1, tracker := some [] } :=
+        i1.congr rfl (by intro c hc; simp only [Option.some.injEq] at hc; subst hc; exact hid1)
+      obtain ⟨i2, g2⟩ := ih.closure P _ cl r2 v obs ia (hE.mono g1.size) h2
+      -- restore tracker / current, extend the trace
+      generalize hr3 : ({ r2 with tracker := r1.tracker, current := r1.current, trace := r2.trace ++ [Event.run id1 obs v] } : Root) = r3 at hx
+      have hn3 : r3.nodes = r2.nodes := by subst hr3; rfl
+      have hc3 : r3.current = r1.current := by subst hr3; rfl
+      have i3 : RInvP P r3 := i2.congr hn3 (by
+        intro c hc; rw [hc3] at hc; exact Nat.lt_of_lt_of_le (i1.cur c hc) g2.size)
+      have g2' : Grows r1 r2 := ⟨g2.size, g2.dead, g2.run⟩
+      have g3 : Grows r r3 := (g1.trans g2').trans (Grows.of_nodes_eq hn3)
+      have hsz3 : r1.nodes.size ≤ r3.nodes.size := by rw [hn3]; exact g2.size
+      have hdead0 : ∀ n, r.get? id1 = some n → n.value ≠ none := by
+        intro n hn
+        rw [hid, Root.get?_eq_none_of_size_le (Nat.le_refl _)] at hn; cases hn
+      cases hd3 : r3.get? id1 with
+      | none =>
+        rw [createDependencyLink_dead _ hd3, hd3] at hx
+        simp only [Except.ok.injEq, Prod.mk.injEq] at hx
+        obtain ⟨rfl, rfl⟩ := hx
+        exact ⟨⟨i3, g3⟩, Nat.lt_of_lt_of_le hid1 hsz3⟩
+      | some nd =>
+        have hv3 : nd.value = none := by
+          have hg : r3.get? id1 = r2.get? id1 := Root.get?_congr_nodes hn3 id1
+          rw [hg] at hd3
+          exact g2.run id1 n1 nd hn1 hv1 hd3
+        have h4 := createDependencyLink_alive (deps := r2.tracker.getD []) hd3
+        rw [h4] at hx
+        simp only [Except.ok.injEq, Prod.mk.injEq] at hx
+        obtain ⟨rfl, rfl⟩ := hx
+        obtain ⟨a, b, c⟩ := finish_alive (n' := { linked ((r2.tracker.getD []).filter r3.alive) id1 id1 nd with
+            value := some v, callback := some (eq, cl) }) i3 g3 hdead0 hd3 hv3 h4 rfl rfl rfl rfl rfl (by simp)
+          (by
+            intro eq' cl' he
+            simp only [Option.some.injEq, Prod.mk.injEq] at he
+            obtain ⟨_, rfl⟩ := he
+            exact hE.mono g3.size)
+        exact ⟨⟨a, b⟩, by rw [c]; exact Nat.lt_of_lt_of_le hid1 hsz3⟩
+
+theorem pres_update {f : Nat} (ih : PresAll f) (P : Id → Prop) (r : Root) (cur : Id) (r' : Root)
+    (hI : RInvP P r) (hx : runNodeUpdate (f + 1) r cur = .ok r') : RootPost P r r' := by
+  simp only [runNodeUpdate] at hx
+  split at hx
+  · cases hx
+  · rename_i n hn
+    split at hx
+    · cases hx
+    · rename_i r2 h2
+      obtain ⟨i2, g2, hsz2, _, _, hn2⟩ := hI.unlink hn h2
+      rw [hn2] at hx
+      simp only at hx
+      split at hx
+      · cases hx
+      · cases hx
+      · rename_i eq cl old hcb hval
+        have w2 := i2.node cur _ hn2
+        have hEcl : EnvLt r2.nodes.size cl.env := w2.callback eq cl hcb
+        -- take value and callback out
+        generalize hr3 : r2.setNode cur _ = r3 at hx
+        have i3 : RInvP P r3 := by
+          subst hr3
+          exact i2.setNode hn2 rfl rfl rfl rfl ⟨fun _ => by simp [unlinked], w2.cleanups, by simp⟩
+        have g3 : Grows r2 r3 := by subst hr3; exact Grows.setNode _ hn2 fun _ => rfl
+        have hn3 : ∃ n3, r3.get? cur = some n3 ∧ n3.value = none := by
+          subst hr3
+          exact ⟨_, Root.get?_setNode_self hn2 _, rfl⟩
+        obtain ⟨n3, hn3, hv3⟩ := hn3
+        split at hx
+        · cases hx
+        · rename_i r4 h4
+          obtain ⟨i4, g4⟩ := ih.dchildren P r3 cur r4 i3 h4
+          split at hx
+          · cases hx
+          · rename_i r5 new obs h5
+            have hcur4 : cur < r4.nodes.size :=
+              Nat.lt_of_lt_of_le (Root.lt_size_of_get? hn3) g4.size
+            have ia : RInvP P { r4 with current := some cur, tracker := some [] } :=
+              i4.congr rfl (by intro c hc; simp only [Option.some.injEq] at hc; subst hc; exact hcur4)
+            obtain ⟨i5, g5⟩ := ih.closure P _ cl r5 new obs ia
+              (hEcl.mono (Nat.le_trans g3.size g4.size)) h5
+            have g5' : Grows r4 r5 := ⟨g5.size, g5.dead, g5.run⟩
+            generalize hr6 : ({ r5 with tracker := r4.tracker, current := r4.current, trace := r5.trace ++ [Event.run cur obs new] } : Root) = r6 at hx
+            have hn6 : r6.nodes = r5.nodes := by subst hr6; rfl
+            have hc6 : r6.current = r4.current := by subst hr6; rfl
+            have i6 : RInvP P r6 := i5.congr hn6 (by
+              intro c hc; rw [hc6] at hc; exact Nat.lt_of_lt_of_le (i4.cur c hc) g5.size)
+            have g36 : Grows r3 r6 := (g4.trans g5').trans (Grows.of_nodes_eq hn6)
+            have g6 : Grows r r6 := (g2.trans g3).trans g36
+            have hnotrun : ∀ m, r.get? cur = some m → m.value ≠ none := by
+              intro m hm hmv
+              rw [hn] at hm; cases hm
+              have : (unlinked cur cur n).value = some old := hval
+              simp [unlinked, hmv] at this
+            cases hd6 : r6.get? cur with
+            | none =>
+              rw [createDependencyLink_dead _ hd6, hd6] at hx
+              simp only [Except.ok.injEq] at hx
+              subst hx
+              exact ⟨i6, g6⟩
+            | some nd =>
+              have hv6 : nd.value = none := g36.run cur n3 nd hn3 hv3 hd6
+              have h7 := createDependencyLink_alive (deps := r5.tracker.getD []) hd6
+              rw [h7] at hx
+              simp only [Except.ok.injEq] at hx
+              have key := fun vv : Int => finish_alive (n' := { linked ((r5.tracker.getD []).filter r6.alive) cur cur nd with
+                  callback := some (eq, cl), value := some vv, dirty := false })
+                i6 g6 hnotrun hd6 hv6 h7 rfl rfl rfl rfl rfl (by simp)
+                (by
+                  intro eq' cl' he
+                  simp only [Option.some.injEq, Prod.mk.injEq] at he
+                  obtain ⟨_, rfl⟩ := he
+                  exact hEcl.mono (Nat.le_trans g3.size g36.size))
+              split at hx
+              · subst hx
+                obtain ⟨a, b, _⟩ := key new
+                obtain ⟨a', b'⟩ := a.markDirty cur
+                exact ⟨a', b.trans b'⟩
+              · subst hx
+                obtain ⟨a, b, _⟩ := key old
+                exact ⟨a, b⟩
 
 end SycVerif.Reactive
